@@ -454,6 +454,45 @@ def _t_split(st, a):
     return f"ok {rat(n)} {show_items(r.items)}"
 
 
+# ---- terms over registry units ----------------------------------------------
+
+def show_reg_items(items):
+    if not items:
+        return "-"
+    out = []
+    for el, e in items:
+        if isinstance(el, float):
+            out.append(f"FLOAT:{el!r}^{e}")
+        elif isinstance(el, Rational):
+            out.append(f"n:{rat(el)}^{e}")
+        elif hasattr(el, "symbol"):
+            out.append(f"u:{el.symbol}^{e}")
+        else:
+            out.append(f"?:{type(el).__name__}^{e}")
+    return ";".join(out)
+
+
+@op("rt_mk")
+def _rt_mk(st, a):
+    return "ok " + show_reg_items(Term(reg_items(st, a)).items)
+
+
+@op("rt_norm")
+def _rt_norm(st, a):
+    t = Term(reg_items(st, a))
+    n = t.normalized()
+    assert show_reg_items(n.normalized().items) == show_reg_items(n.items), "normal form not idempotent"
+    return "ok " + show_reg_items(n.items)
+
+
+@op("rt_eq")
+def _rt_eq(st, a, b):
+    ta, tb = Term(reg_items(st, a)), Term(reg_items(st, b))
+    eq, eq2 = ta == tb, tb == ta
+    assert eq == eq2, "Term.__eq__ not symmetric"
+    return f"ok eq={_b(eq)} hasheq={_b(hash(ta) == hash(tb))}"
+
+
 # ---- registry and quantities ---------------------------------------------
 
 from fractions import Fraction as _F  # noqa: E402
